@@ -183,8 +183,9 @@ CHECKS["C17"] = dict(
          "only in value positions). Build half: TestRunner::{build, build_internal}, TestContext::rebuild, app::copy_app and util::run_command "
          "are executed from MIR for a BuildConfig with a symbolic builder, two symbolic `Other` buildpack ids (possibly equal), 0..1 env pair, "
          "with/without app preprocessor and both expected pack results: exactly one pack build per configuration carrying builder, buildpacks "
-         "in order and env pairs once, --path = the fixture or the private temp copy the preprocessor saw, fixture untouched. The mapping "
-         "ContainerConfig -> DockerRunCommand in start_container is covered only for the default container configuration (via C16).",
+         "in order and env pairs once, --path = the fixture or the private temp copy the preprocessor saw, fixture untouched. Container half: "
+         "TestContext::start_container from MIR with a ContainerConfig whose entrypoint, command word, env pair, exposed port and bind mount "
+         "are solver variables; the recorded docker run argv, decoded by the reference parser, must equal the configuration.",
     design_ref="DESIGN.md §5 C17",
     technique="symbolic execution of rustc MIR (mirsym) with SMT strings + z3; oracle = symbolic reference parser of the docker/pack command-line grammar; witness replay against the real From impls",
     note="Assumed: env names non-empty without '=', no NUL, no CR in mount paths, generated container/image names. The command structs are "
